@@ -480,6 +480,12 @@ func (g *gen) set(parent schema.NamedType, outer *gSet, underArgs bool) *gSet {
 			// an identical overlapping field now and then
 			if f.Def != nil && r.Chance(1, 6) {
 				dup := &gSel{Kind: kField, Alias: f.Alias, Name: f.Name, Args: append([]gArg(nil), f.Args...), Def: f.Def}
+				if len(dup.Args) >= 2 && len(s.Sels)%2 == 0 {
+					// the same arguments written in another order: still identical arguments for 5.3.2
+					for i, j := 0, len(dup.Args)-1; i < j; i, j = i+1, j-1 {
+						dup.Args[i], dup.Args[j] = dup.Args[j], dup.Args[i]
+					}
+				}
 				if f.Sub != nil {
 					if deep {
 						dup.Sub = &gSet{Parent: f.Sub.Parent, Sels: []*gSel{{Kind: kField, Name: "__typename"}}, Depth: s.Depth + 1, UnderArgs: s.UnderArgs, InFrag: s.InFrag}
